@@ -225,6 +225,12 @@ class World(object):
                     host.h_entering(m)
         return rec
 
+    def park_raise(self, F, pid):
+        """Thread worlds: park, and raise when released."""
+        self.rel()
+        self.acq()
+        raise E1("raised by the call the frame was parked in (%d)" % pid)
+
     def rbudget(self, n):
         """Bound on self-calls of generated functions (whole world)."""
         self._rb = getattr(self, "_rb", 0) + 1
